@@ -3,7 +3,7 @@
 # it with SPAKE2_VERIF_TREE (experiments only; evidence is never written from here: VERIF_EVIDENCE_DIR is redirected)
 set -u
 ID=$1; NAME=${2:-$ID}; shift; shift 2>/dev/null
-SRC=/tmp/wt/$ID/MUTANT
+SRC=/tmp/wt/$ID/MUTANT; [ -f $SRC/patch.diff ] || SRC=/verif/seeded/$NAME
 W=/tmp/evalwt_$NAME
 git -C /repo worktree remove --force $W 2>/dev/null
 git -C /repo worktree add -q --detach $W HEAD
